@@ -109,6 +109,7 @@ type FnV struct {
 	logKinds []string
 	returned []Value
 	nowriteOn bool
+	ghostVars map[string]Value
 	ownRefs  map[string]bool
 }
 
@@ -331,6 +332,9 @@ func (v *FnV) safety(st *State, kind string, node ast.Node, cond string, desc st
 	if !v.fc.Safety {
 		return
 	}
+	if st != nil && st.quiet {
+		return // inside a quantifier body (a comparison evaluated symbolically)
+	}
 	for _, sk := range v.fc.Extra["skip"] {
 		if sk == kind {
 			// the contract declares this kind of run-time check out of scope (listed as an assumption)
@@ -508,6 +512,7 @@ func (e *Engine) verifyFunc(fc *FuncContract) []*Oblig {
 	v.nowriteOn = v.isNoWrite()
 	v.entry = st.fork()
 	// preconditions
+	v.bindGhosts(st, fc, scope)
 	sc := &Scope{v: v, vars: scope, pkg: pkg, pos: decl.Body.Lbrace + 1}
 	for _, cl := range fc.Requires {
 		val, err := v.spec(st, cl.Expr, sc)
